@@ -1,6 +1,7 @@
 //! mc_core: exhaustive bounded exploration engines that drive the real erg crates in-process.
 mod shard;
 mod lexenum;
+mod parseenum;
 mod sexp;
 mod prec;
 mod paths;
@@ -17,6 +18,7 @@ fn main() {
     let rest = &args[2..];
     match args[1].as_str() {
         "lex-enum" => lexenum::main(rest),
+        "parse-enum" => parseenum::main(rest),
         "prec" => prec::main(rest),
         "paths" => paths::main(rest),
         "pred" => pred::main(rest),
